@@ -161,7 +161,7 @@ func c03R1R3R7(p *core.Program, r *core.Report) {
 			r.Check(ok, "R3", f, "registration is followed by printing the registered name", cs.Call.Pos(), "post-dominated by LocalNameOf of the same path", "a package is registered on a path that does not print its name: unused import")
 			// R7: not the own package
 			own := false
-			isOwnField := func(e ast.Expr) bool { fld := core.FieldOf(info, e); return fld != nil && fld.Name() == "pkgPath" }
+			isOwnField := func(e ast.Expr) bool { fld := core.FieldOf(info, e); return isRole(p, fld, "namer.pkgPath") }
 			isThisPath := func(e ast.Expr) bool { return samePathAsAddType(f, cs.Call, e) }
 			for _, fct := range g.FactsAt(at) {
 				if v, ok := eqFact(fct, isThisPath, isOwnField); ok && !v {
@@ -189,7 +189,7 @@ func c03R1R3R7(p *core.Program, r *core.Report) {
 		for _, rp := range g.Points(func(n ast.Node) bool { _, ok := n.(*ast.ReturnStmt); return ok }) {
 			ret := rp.Node().(*ast.ReturnStmt)
 			isOwn := false
-			isOwnField := func(e ast.Expr) bool { fld := core.FieldOf(info, e); return fld != nil && fld.Name() == "pkgPath" }
+			isOwnField := func(e ast.Expr) bool { fld := core.FieldOf(info, e); return isRole(p, fld, "namer.pkgPath") }
 			anyExpr := func(e ast.Expr) bool { return !isOwnField(e) }
 			for _, fct := range g.FactsAt(rp) {
 				if v, ok := eqFact(fct, anyExpr, isOwnField); ok && v {
@@ -247,7 +247,7 @@ func c03R2(p *core.Program, r *core.Report) {
 				}
 			case *ast.AssignStmt:
 				for _, l := range x.Lhs {
-					if fld := core.FieldOf(info, l); fld != nil && fld.Name() == "imports" && core.NamedTypeName(fld.Type()) == core.G("pkg/namer.ImportTracker") {
+					if fld := core.FieldOf(info, l); isRole(p, fld, "file.imports") && core.NamedTypeName(fld.Type()) == core.G("pkg/namer.ImportTracker") {
 						stores++
 						storePos = x.Pos()
 					}
@@ -259,7 +259,7 @@ func c03R2(p *core.Program, r *core.Report) {
 	r.Check(stores == 1 && fresh, rule, nil, "genfile.imports is stored exactly once, with a fresh tracker", storePos, "single store in the constructor: NewDefaultImportTracker()", "the file's import tracker is replaced or shared: the import block may be printed from another tracker than the one the namer registers into")
 	isImportsField := func(info *types.Info, e ast.Expr) bool {
 		f := core.FieldOf(info, e)
-		return f != nil && f.Name() == "imports" && core.NamedTypeName(f.Type()) == core.G("pkg/namer.ImportTracker")
+		return isRoleAny(f, "file.imports")
 	}
 	iw := p.FuncByName("pkg/gengo", "(*genfile).InitWith")
 	wf := p.FuncByName("pkg/gengo", "(*genfile).WriteToFile")
@@ -547,7 +547,7 @@ func c03Tracker(p *core.Program, r *core.Report) {
 					continue
 				}
 				if ix, ok := ast.Unparen(d.Rhs).(*ast.IndexExpr); ok {
-					if fld := core.FieldOf(info, ix.X); fld != nil && fld.Name() == "pathToName" && core.SameRef(info, ix.Index, pIx.Index) {
+					if fld := core.FieldOf(info, ix.X); isRole(p, fld, "tracker.byPath") && core.SameRef(info, ix.Index, pIx.Index) {
 						return true
 					}
 				}
@@ -588,7 +588,7 @@ func c03Tracker(p *core.Program, r *core.Report) {
 					}
 				}
 				if e != nil {
-					if fld := core.FieldOf(f.Info(), e); fld != nil && fld.Name() == "pathToName" {
+					if fld := core.FieldOf(f.Info(), e); isRole(p, fld, "tracker.byPath") {
 						ok = true
 					}
 				}
